@@ -7,6 +7,7 @@
 package main
 
 import (
+	"bufio"
 	"bytes"
 	"encoding/hex"
 	"encoding/json"
@@ -192,6 +193,26 @@ func scrape(client *http.Client, url string) (map[string]int, int, error) {
 	return totals, gauge, nil
 }
 
+// slowRequest sends a POST /prove whose body arrives in two halves separated by pause.
+func slowRequest(addr, body string, pause time.Duration) string {
+	conn, err := net.Dial("tcp", addr)
+	if err != nil {
+		return "cannot connect: " + err.Error()
+	}
+	defer conn.Close()
+	half := len(body) / 2
+	fmt.Fprintf(conn, "POST /prove HTTP/1.1\r\nHost: x\r\nContent-Length: %d\r\n\r\n%s", len(body), body[:half])
+	time.Sleep(pause)
+	fmt.Fprint(conn, body[half:])
+	conn.SetReadDeadline(time.Now().Add(30 * time.Second))
+	resp, err := http.ReadResponse(bufio.NewReader(conn), nil)
+	if err != nil {
+		return "no response: " + err.Error()
+	}
+	io.ReadAll(resp.Body)
+	return fmt.Sprintf("status %d", resp.StatusCode)
+}
+
 func main() {
 	seed := flag.Int64("seed", 1, "seed")
 	n := flag.Int("n", 40, "requests per mode")
@@ -199,6 +220,7 @@ func main() {
 	b := flag.Int("batch", 2, "batch size")
 	conc := flag.Int("concurrent", 1, "requests in flight per round")
 	modesFlag := flag.String("modes", "insertion,deletion", "modes")
+	slow := flag.Float64("slow", 0, "additionally send one request whose body upload pauses for this many seconds")
 	flag.Parse()
 	g := gen.New(*seed)
 	client := &http.Client{Timeout: 120 * time.Second}
@@ -280,6 +302,15 @@ func main() {
 				}
 			}
 			done += k
+		}
+		if *slow > 0 {
+			// one request that stays inside the handler for a long time (paused upload)
+			body := `{"inputHash":"0x1","preRoot":"zz"}`
+			st := slowRequest(cfg.ProverAddress, body, time.Duration(*slow*float64(time.Second)))
+			emit(fmt.Sprintf("slow-request\t%g", *slow), st)
+			if strings.HasPrefix(st, "status ") {
+				tally = append(tally, "POST:"+strings.TrimPrefix(st, "status "))
+			}
 		}
 		// liveness sentinel
 		st, _, err := do(client, url, request{method: "GET"})
